@@ -481,3 +481,23 @@ Proof.
   eexists. eexists. eexists. split; [reflexivity|]. split; [vm_compute; reflexivity|].
   split; [vm_compute; reflexivity|]. vm_compute. discriminate.
 Qed.
+
+(* ------------------------------------------------------------------ C17: error curves and scores are observers.
+   reconstruction_error / score / predict are the Observe operation: wherever they are interleaved in a history - and
+   whether they succeed or raise - the model ends in the state it would have reached without them. *)
+Definition is_observe (o : op) : bool := match o with Observe => true | _ => false end.
+
+Lemma run_cons s o t : run s (o :: t) = (fst (run (fst (step s o)) t), snd (step s o) :: snd (run (fst (step s o)) t)).
+Proof. simpl. destruct (step s o) as [s1 e]. simpl. destruct (run s1 t) as [s2 es]. reflexivity. Qed.
+
+Theorem observers_leave_no_trace h : forall s, fst (run s h) = fst (run s (filter (fun o => negb (is_observe o)) h)).
+Proof.
+  induction h as [|o t IH]; intro s; [reflexivity|].
+  rewrite run_cons. cbn [fst filter].
+  destruct o; cbn [is_observe negb]; try (rewrite run_cons; cbn [fst]; apply IH).
+  destruct (step s Observe) as [s1 e] eqn:E. apply observe_noop in E. subst s1. cbn [fst]. apply IH.
+Qed.
+
+(* in particular the sensor count in force, the ranking and the basis matrix are those of the observer-free history *)
+Corollary observers_keep_obs h s : obs (fst (run s h)) = obs (fst (run s (filter (fun o => negb (is_observe o)) h))).
+Proof. now rewrite observers_leave_no_trace. Qed.
